@@ -89,6 +89,9 @@ def _worker(task):
                 items.append((None, sc))
     det_every = task.get("det_every", 50)
     for idx, (seed, sc) in enumerate(items):
+        if time.time() > task.get("deadline", 1e18):
+            out["cut"] = len(items) - idx
+            break
         try:
             if sc is None:
                 sc = eng.gen(seed, task["tier"], prop) if task.get("gen_takes_prop") else eng.gen(seed, task["tier"])
@@ -158,8 +161,26 @@ def run_tasks(tasks, workers=None, timeout_s=3600):
         except Exception as e:
             for f in futs:
                 f.cancel()
+            done = [r for r in results if r is not None]
+            if any(r["hits"] for r in done):
+                # violations found by the tasks that did finish stand (their replay files re-run in a fresh
+                # process); the unfinished tasks are reported, not silently dropped
+                for p in list(getattr(ex, "_processes", {}).values()):
+                    try:
+                        p.kill()
+                    except Exception:  # noqa
+                        pass
+                blank = _blank()
+                blank["errors"].append(f"worker pool: {type(e).__name__}: {e} - {len(results) - len(done)} task(s) unfinished")
+                return [r if r is not None else dict(blank) for r in results]
             raise HarnessError(f"worker pool failed: {type(e).__name__}: {e}")
     return results
+
+
+def _blank():
+    return {"n": 0, "shapes": {}, "probes": {}, "faults": {}, "frames": 0, "calls": 0, "vtime_us": 0,
+            "evals": 0, "hits": [], "incidental": {}, "det_checked": 0, "det_mismatch": [],
+            "errors": [], "samples": [], "nontrivial": 0, "wall": 0.0, "sig_counts": {}}
 
 
 def merge(results):
@@ -171,6 +192,7 @@ def merge(results):
             raise HarnessError("missing worker result")
         for k in ("n", "frames", "calls", "vtime_us", "evals", "det_checked", "nontrivial", "wall"):
             tot[k] += r[k]
+        tot["cut"] = tot.get("cut", 0) + r.get("cut", 0)
         for d in ("shapes", "probes", "faults", "incidental", "sig_counts"):
             for k, v in r[d].items():
                 tot[d][k] = tot[d].get(k, 0) + v
